@@ -22,6 +22,8 @@ CONSTANTS Role,
           KProgs,      \* set of pairs << K1 program, K2 program >> : sequences of [api |-> "WC", type, n, dl]
           RProgs,      \* set of sequences of reader-triggered replies [type, n]
           FaultAts,    \* set of transport-op indices at which one fault is injected (0 = none)
+          WCCheckBeforeLock,  \* FALSE: conn.go as it is; TRUE: the deliberate deviation "WriteControl reads the
+                       \* sticky flag BEFORE taking the lock" (expected-violation config MC_Conc_mutation.cfg)
           KeepSched,   \* record the schedule history (FALSE in the liveness config: no VIEW there)
           MultiQ       \* TRUE: any number of threads may block on the lock (liveness config);
                        \* FALSE: at most one (schedules that the harness can replay deterministically)
@@ -97,7 +99,8 @@ Start(t) ==
             /\ pc' = [pc EXCEPT ![t] = IF wmsg.open THEN "L" ELSE "RET"] /\ UNCHANGED << ip, seen >>
        [] o.api = "WC" ->
             /\ mon' = (IF t = "R" THEN mon ELSE Call(mon, t, CallRec(t)))
-            /\ pc' = [pc EXCEPT ![t] = IF o.dl = "past" THEN "TO" ELSE "L"] /\ UNCHANGED << ip, wmsg, seen >>
+            /\ seen' = [seen EXCEPT ![t] = err]       \* only consulted under WCCheckBeforeLock
+            /\ pc' = [pc EXCEPT ![t] = IF o.dl = "past" THEN "TO" ELSE "L"] /\ UNCHANGED << ip, wmsg >>
   /\ Log(t, "start") /\ UNCHANGED << lock, err, progs, nops, faultAt >>
 
 (* a call that returns without having reached the lock *)
@@ -144,9 +147,11 @@ Release(t, pcs) ==
   ELSE LET u == CHOOSE u \in Queued : TRUE IN lock' = u /\ pc' = [pcs EXCEPT ![u] = "A"]
 
 (* read the sticky flag under the lock *)
+StickyAsSeenBy(t) == IF WCCheckBeforeLock /\ t # "W" THEN seen[t] ELSE err
+
 Check(t) ==
   /\ pc[t] = "A" /\ lock = t
-  /\ IF err # "none" THEN
+  /\ IF StickyAsSeenBy(t) # "none" THEN
         \* write()/WriteControl return the sticky error, nothing is written
         /\ (IF t = "W" THEN
                LET api == Cur(t).api IN
